@@ -16,6 +16,7 @@ import (
 	"go/ast"
 	"go/token"
 	"go/types"
+	"strings"
 )
 
 type nilfieldKey struct {
@@ -320,4 +321,53 @@ func isEmptyIface(info *types.Info, e ast.Expr) bool {
 	}
 	it, ok := tv.Type.Underlying().(*types.Interface)
 	return ok && it.NumMethods() == 0
+}
+
+// guardPath: the conditions under which target (a node inside body) is reached, outermost first: the
+// conditions of the enclosing if statements (negated for the else branch) and the case lists of the enclosing
+// switch clauses. It is part of the identity of explicit-panic sites: such a panic states "cannot happen
+// here", and what "here" means is these conditions - a changed guard is a different site.
+func guardPath(body ast.Node, target ast.Node) []string {
+	var stack []ast.Node
+	var found []ast.Node
+	ast.Inspect(body, func(n ast.Node) bool {
+		if n == nil {
+			stack = stack[:len(stack)-1]
+			return true
+		}
+		if n == target && found == nil {
+			found = append([]ast.Node{}, stack...)
+		}
+		stack = append(stack, n)
+		return true
+	})
+	var out []string
+	for i, a := range found {
+		switch x := a.(type) {
+		case *ast.IfStmt:
+			switch {
+			case contains(x.Body, target):
+				out = append(out, "if "+norm(types.ExprString(x.Cond)))
+			case x.Else != nil && contains(x.Else, target):
+				out = append(out, "if !("+norm(types.ExprString(x.Cond))+")")
+			}
+		case *ast.CaseClause:
+			tag := ""
+			if i >= 2 {
+				if sw, ok := found[i-2].(*ast.SwitchStmt); ok && sw.Tag != nil {
+					tag = norm(types.ExprString(sw.Tag)) + " "
+				}
+			}
+			if len(x.List) == 0 {
+				out = append(out, "switch "+tag+"default")
+				continue
+			}
+			var cs []string
+			for _, e := range x.List {
+				cs = append(cs, norm(types.ExprString(e)))
+			}
+			out = append(out, "switch "+tag+"case "+strings.Join(cs, ", "))
+		}
+	}
+	return out
 }
